@@ -121,7 +121,8 @@ PROPS["C06"] = dict(
     jobs=4,
     harnesses={
         "c06_register_one_descriptor_step": dict(cap=1800),
-        "c06_register_two_descriptors_step": dict(cap=2400),
+        "c06_register_two_descriptors_new_then_known": dict(cap=2400),
+        "c06_register_two_descriptors_other_shapes": dict(cap=3600, tier="thorough"),
         "c06_unregister_step": dict(cap=1800),
         "c06_same_collector_twice_and_gather": dict(cap=1800),
     },
